@@ -452,6 +452,15 @@ func (st *tunnelServerStream) SendMsg(m interface{}) error {
 	st.writeMu.Lock()
 	defer st.writeMu.Unlock()
 
+	if st.closed {
+		// stream already finished (e.g. cancelled by the client), so headers
+		// and close frame are already on their way; don't send more data
+		if err := st.ctx.Err(); err != nil {
+			return err
+		}
+		return errors.New("already finished")
+	}
+
 	if !st.sentHeaders {
 		if err := st.sendHeadersLocked(); err != nil {
 			return err
